@@ -5,6 +5,7 @@ import ast
 import hashlib
 import importlib
 import inspect
+import os
 import signal
 import time
 import traceback
@@ -70,6 +71,27 @@ class Target:
         self.start_at = start_at
         self.field_invs = field_invs or {}
 
+    def replay_refuted(self, I, env, obs, outcome):
+        """native replay of the first refuted obligation of this path that has a model"""
+        if self.replay is not None or os.environ.get("PYVC_NO_NATIVE"):
+            return
+        done = None
+        for ob in obs:
+            if ob.status != "refuted":
+                continue
+            if done is not None:
+                ob.native = done
+                continue
+            if ob.z3model is None:
+                continue
+            try:
+                from .native import replay_path
+
+                done = replay_path(self, I, env, ob.z3model, outcome)
+            except Exception as e:
+                done = {"confirmed": False, "note": f"replay crashed: {e!r}", "trace": traceback.format_exc()[-500:]}
+            ob.native = done
+
     # ------------------------------------------------------------------
     def run(self):
         t0 = time.time()
@@ -127,16 +149,19 @@ class Target:
                     exits["exceptional"] += 1
                     allowed = any(issubclass(e.cls, k) for k in self.raises)
                     name = f"raises/{e.cls.__name__}"
+                    n0 = len(ex.obligations)
                     if not allowed:
                         ob_ok = ctx.oblige(name, z3.BoolVal(False), kind="raises", where=f"{e.where}: {e.msg}")
                     for (n, fn) in self.exc_ensures:
                         ctx.oblige(f"exc/{n}", fn(I, env, e), kind="exc-ensures", where=e.where)
                     if self.exit_hook:
                         self.exit_hook(I, env, None, e)
+                    self.replay_refuted(I, env, ex.obligations[n0:], ("raise", e))
                     return
                 if not ctx.is_sat():
                     raise Infeasible()
                 exits["normal"] += 1
+                n0 = len(ex.obligations)
                 for (n, fn) in self.ensures:
                     goal = fn(I, env, result)
                     if goal is None:
@@ -144,6 +169,7 @@ class Target:
                     ctx.oblige(f"ensures/{n}", goal, kind="ensures", where=self.func, bounded=self.bounded)
                 if self.exit_hook:
                     self.exit_hook(I, env, result, None)
+                self.replay_refuted(I, env, ex.obligations[n0:], ("return", result))
             finally:
                 for k, v in I.functions_entered.items():
                     entered[k] = entered.get(k, 0) + v
